@@ -1,9 +1,379 @@
 package main
 
+// C13, modelled cores (diffed against fdmodel): the real plugin is run through its public path
+// (GetConfig + Start + Do), the value it leaves in the event is the implementation result.
+//
+//   c13.subst <nf> <filter>… <src hex>          modify with {"out": "${in|f1|…|fn}"} on {"in": src}
+//        filter: cut first|last <n> | trimto all|left|right <cutset hex> | trim all|left|right <ascii cutset hex>
+//              | re <limit> <sep hex> <0|1> <ng> <g>… <re hex> <nsub> <nm> (<2(nsub+1) ints>)…    (first filter only)
+//        the `re` tokens carry regexp.FindAllSubmatchIndex(src, limit) as the model's oracle;
+//        exec recomputes it and answers bad-oracle when the line is stale
+//   c13.utf8 <n> <src hex>×n                      convert_utf8_bytes with fields f0…f(n-1) on one event
+//   result: ok <hex>… | panic:<kind> | cfg-rejected
+
 import (
 	"bufio"
+	"encoding/json"
+	"fmt"
+	"regexp"
+	"strconv"
+	"strings"
+
+	"github.com/ozontech/file.d/pipeline"
+	insaneJSON "github.com/ozontech/insane-json"
 
 	"verifharness/internal/hx"
+	"verifharness/internal/jt"
 )
 
-func genC13Cores(w *bufio.Writer, rng *hx.Rng, tier string) {}
+func init() {
+	execs["c13.subst"] = c13Isolated("c13.subst", c13SubstDirect)
+	execs["c13.utf8"] = c13Isolated("c13.utf8", c13Utf8Direct)
+}
+
+// c13Lit renders s as a JSON string literal that survives the substitution argument parser:
+// everything but plain letters, digits and a few harmless signs is written as \u00XX.
+func c13Lit(s string) string {
+	var sb strings.Builder
+	sb.WriteByte('"')
+	for _, r := range s {
+		switch {
+		case r >= 0x80:
+			sb.WriteRune(r)
+		case r >= 'a' && r <= 'z', r >= 'A' && r <= 'Z', r >= '0' && r <= '9', r == ' ', r == '_', r == '-', r == '.', r == ':', r == '!', r == '*', r == '+', r == '^', r == '?':
+			sb.WriteRune(r)
+		default:
+			fmt.Fprintf(&sb, "\\u%04x", r)
+		}
+	}
+	sb.WriteByte('"')
+	return sb.String()
+}
+
+type c13Filter struct {
+	expr string // filter in substitution syntax
+}
+
+// c13ParseFilters reads the filters of a c13.subst case and renders them; for `re` it checks the
+// oracle against the library.
+func c13ParseFilters(t *hx.Toks, n int, src func() []byte) (exprs []string, status string) {
+	for i := 0; i < n; i++ {
+		switch t.Next() {
+		case "cut":
+			mode := t.Next()
+			cnt := t.Int()
+			exprs = append(exprs, fmt.Sprintf(`cut("%s",%d)`, mode, cnt))
+		case "trimto":
+			mode := t.Next()
+			cs := t.Bytes()
+			exprs = append(exprs, fmt.Sprintf(`trim_to("%s",%s)`, mode, c13Lit(string(cs))))
+		case "trim":
+			mode := t.Next()
+			cs := t.Bytes()
+			exprs = append(exprs, fmt.Sprintf(`trim("%s",%s)`, mode, c13Lit(string(cs))))
+		case "re":
+			if i != 0 {
+				return nil, "bad-case"
+			}
+			limit := t.Int()
+			sep := t.Bytes()
+			eonm := t.Bool()
+			ng := t.Int()
+			groups := make([]string, 0, ng)
+			for j := 0; j < ng && t.Err == nil; j++ {
+				groups = append(groups, strconv.Itoa(t.Int()))
+			}
+			reS := string(t.Bytes())
+			nsub := t.Int()
+			nm := t.Int()
+			if t.Err != nil || nm < 0 || nm > 1<<20 || nsub < 0 || nsub > 1000 {
+				return nil, "bad-case"
+			}
+			var oracle [][]int
+			for j := 0; j < nm && t.Err == nil; j++ {
+				row := make([]int, 2*(nsub+1))
+				for k := range row {
+					row[k] = t.Int()
+				}
+				oracle = append(oracle, row)
+			}
+			if t.Err != nil {
+				return nil, "bad-case"
+			}
+			re, err := regexp.Compile(reS)
+			if err != nil {
+				return nil, "cfg-rejected"
+			}
+			got := re.FindAllSubmatchIndex(src(), limit)
+			if re.NumSubexp() != nsub || len(got) != len(oracle) {
+				return nil, "bad-oracle"
+			}
+			for j := range got {
+				for k := range got[j] {
+					if got[j][k] != oracle[j][k] {
+						return nil, "bad-oracle"
+					}
+				}
+			}
+			exprs = append(exprs, fmt.Sprintf(`re(%s,%d,[%s],%s,%v)`, c13Lit(reS), limit, strings.Join(groups, ","), c13Lit(string(sep)), eonm))
+		default:
+			return nil, "bad-case"
+		}
+		if t.Err != nil {
+			return nil, "bad-case"
+		}
+	}
+	return exprs, ""
+}
+
+func c13RunOne(plugin string, cfgJSON []byte, ev *jt.Tree, read func(root *insaneJSON.Root) string) string {
+	inst, ok := c13Start(plugin, cfgJSON, c13PS{})
+	if !ok {
+		return "cfg-rejected"
+	}
+	defer inst.stop()
+	e := &pipeline.Event{Root: insaneJSON.Spawn(), SourceName: "src"}
+	text := ev.JSON()
+	e.Size = len(text)
+	if err := e.Root.DecodeBytes(text); err != nil {
+		return "bad-case"
+	}
+	_, st := inst.do(e)
+	if st != "" {
+		// panic:<kind>@site → panic:<kind> (the model's token)
+		if i := strings.Index(st, "@"); i >= 0 {
+			st = st[:i]
+		}
+		return st
+	}
+	return read(e.Root)
+}
+
+func c13SubstDirect(t *hx.Toks) string {
+	n := t.Int()
+	if t.Err != nil || n < 0 || n > 64 {
+		return "bad-case"
+	}
+	// the source is the last token
+	if len(t.T) == 0 {
+		return "bad-case"
+	}
+	srcB, err := hx.Dec(t.T[len(t.T)-1])
+	if err != nil {
+		return "bad-case"
+	}
+	exprs, st := c13ParseFilters(t, n, func() []byte { return srcB })
+	if st != "" {
+		return st
+	}
+	_ = t.Bytes() // src
+	if t.Err != nil || !t.Done() {
+		return "bad-case"
+	}
+	expr := "${in"
+	for _, e := range exprs {
+		expr += "|" + e
+	}
+	expr += "}"
+	cfgJSON, _ := json.Marshal(map[string]string{"out": expr})
+	ev := jt.O(jt.KV{K: []byte("in"), V: &jt.Tree{Kind: jt.Str, Raw: srcB}})
+	return c13RunOne("modify", cfgJSON, ev, func(root *insaneJSON.Root) string {
+		node := root.Dig("out")
+		if node == nil {
+			return "no-out"
+		}
+		return "ok " + hx.Enc([]byte(node.AsString()))
+	})
+}
+
+func c13Utf8Direct(t *hx.Toks) string {
+	n := t.Int()
+	if t.Err != nil || n < 1 || n > 16 {
+		return "bad-case"
+	}
+	ev := jt.O()
+	fields := make([]string, n)
+	for i := 0; i < n; i++ {
+		b := t.Bytes()
+		fields[i] = "f" + strconv.Itoa(i)
+		ev.Obj = append(ev.Obj, jt.KV{K: []byte(fields[i]), V: &jt.Tree{Kind: jt.Str, Raw: b}})
+	}
+	if t.Err != nil || !t.Done() {
+		return "bad-case"
+	}
+	cfgJSON, _ := json.Marshal(map[string]any{"fields": fields})
+	return c13RunOne("convert_utf8_bytes", cfgJSON, ev, func(root *insaneJSON.Root) string {
+		var sb strings.Builder
+		sb.WriteString("ok")
+		for _, f := range fields {
+			sb.WriteString(" " + hx.Enc([]byte(root.Dig(f).AsString())))
+		}
+		return sb.String()
+	})
+}
+
+// ---------------------------------------------------------------- generators
+
+func c13AllStrings(alpha []string, maxLen int, f func(s string)) {
+	var rec func(cur string, n int)
+	rec = func(cur string, n int) {
+		f(cur)
+		if n == 0 {
+			return
+		}
+		for _, a := range alpha {
+			rec(cur+a, n-1)
+		}
+	}
+	rec("", maxLen)
+}
+
+func c13ReTok(reS string, limit int, groups []int, sep string, eonm bool, src []byte) (string, bool) {
+	re, err := regexp.Compile(reS)
+	if err != nil {
+		return "", false
+	}
+	ms := re.FindAllSubmatchIndex(src, limit)
+	var sb strings.Builder
+	fmt.Fprintf(&sb, "re %d %s %s %d", limit, hx.Enc([]byte(sep)), hx.B(eonm), len(groups))
+	for _, g := range groups {
+		fmt.Fprintf(&sb, " %d", g)
+	}
+	fmt.Fprintf(&sb, " %s %d %d", hx.Enc([]byte(reS)), re.NumSubexp(), len(ms))
+	for _, m := range ms {
+		for _, x := range m {
+			fmt.Fprintf(&sb, " %d", x)
+		}
+	}
+	return sb.String(), true
+}
+
+func genC13Cores(w *bufio.Writer, rng *hx.Rng, tier string) {
+	full := tier == "thorough"
+	modes := []string{"all", "left", "right"}
+
+	// ---- substitution filters, exhaustive small scope
+	maxLen := 4
+	if full {
+		maxLen = 6
+	}
+	var small []string
+	c13AllStrings([]string{"a", "b"}, maxLen, func(s string) { small = append(small, s) })
+	for _, src := range small {
+		for cnt := 1; cnt <= 3; cnt++ {
+			fmt.Fprintf(w, "c13.subst 1 cut first %d %s\n", cnt, hx.Enc([]byte(src)))
+			fmt.Fprintf(w, "c13.subst 1 cut last %d %s\n", cnt, hx.Enc([]byte(src)))
+		}
+		for _, mode := range modes {
+			for _, cs := range []string{"", "a", "ab", "b", "aa", "aba"} {
+				fmt.Fprintf(w, "c13.subst 1 trimto %s %s %s\n", mode, hx.Enc([]byte(cs)), hx.Enc([]byte(src)))
+			}
+			for _, cs := range []string{"", "a", "ab"} {
+				fmt.Fprintf(w, "c13.subst 1 trim %s %s %s\n", mode, hx.Enc([]byte(cs)), hx.Enc([]byte(src)))
+			}
+		}
+	}
+	// regex filter: every group subset / order of small regexps, limits, separators
+	type reCase struct {
+		re     string
+		groups [][]int
+	}
+	reCases := []reCase{
+		{`(a)|(b)`, [][]int{{1}, {2}, {1, 2}, {2, 1}, {0}}},
+		{`((a)b)?`, [][]int{{1, 2}, {2, 1}, {2}, {0}}},
+		{`(a*)`, [][]int{{0}, {1}}},
+		{`(a)(b)?`, [][]int{{2}, {1, 2}, {2, 1}, {}}},
+		{`()`, [][]int{{0}, {1}}},
+	}
+	for _, rc := range reCases {
+		for _, gs := range rc.groups {
+			for _, limit := range []int{-1, 0, 1, 2} {
+				for si, sep := range []string{",", ""} {
+					for _, src := range small {
+						if !full && (len(src)+limit+si)%2 == 0 {
+							continue
+						}
+						tok, ok := c13ReTok(rc.re, limit, gs, sep, (len(src)+limit)%2 == 0, []byte(src))
+						if ok {
+							fmt.Fprintf(w, "c13.subst 1 %s %s\n", tok, hx.Enc([]byte(src)))
+						}
+					}
+				}
+			}
+		}
+	}
+	// random chains on longer values (cap-sensitive lengths 7, 8, 9, 15, 16, 17 … included)
+	nrand := 1500
+	if full {
+		nrand = 60000
+	}
+	wide := []byte("ab{}\"\\ \n,x1я\xff")
+	cutsets := []string{"", "a", "{", "}", "\"", "ab", "x1", " ", "\n", "я"}
+	asciiSets := []string{"", "a", " \n", "ab", "{}", "x", "\"\\"}
+	res := []string{`(a)|(b)`, `(\w+)`, `(x)(1)?`, `([^ ]*) ?`, `(.)`, `(я+)`, `(\{)([^}]*)(\})`}
+	for i := 0; i < nrand; i++ {
+		n := []int{0, 1, 2, 3, 5, 7, 8, 9, 15, 16, 17, 24, 31, 32, 33, 48, 64, 100}[rng.Intn(18)]
+		src := rng.Bytes(n, wide)
+		nf := rng.Range(1, 4)
+		var toks []string
+		for j := 0; j < nf; j++ {
+			k := rng.Intn(4)
+			if j == 0 && rng.Chance(1, 3) {
+				k = 4
+			}
+			switch k {
+			case 0:
+				toks = append(toks, fmt.Sprintf("cut %s %d", []string{"first", "last"}[rng.Intn(2)], rng.Range(1, 20)))
+			case 1, 2:
+				toks = append(toks, fmt.Sprintf("trimto %s %s", modes[rng.Intn(3)], hx.Enc([]byte(cutsets[rng.Intn(len(cutsets))]))))
+			case 3:
+				toks = append(toks, fmt.Sprintf("trim %s %s", modes[rng.Intn(3)], hx.Enc([]byte(asciiSets[rng.Intn(len(asciiSets))]))))
+			case 4:
+				reS := res[rng.Intn(len(res))]
+				re := regexp.MustCompile(reS)
+				var gs []int
+				perm := []int{0, 1, 2, 3}
+				for _, g := range perm[:rng.Range(0, re.NumSubexp())] {
+					if g <= re.NumSubexp() {
+						gs = append(gs, g)
+					}
+				}
+				if rng.Bool() && len(gs) > 1 {
+					gs[0], gs[len(gs)-1] = gs[len(gs)-1], gs[0]
+				}
+				tok, _ := c13ReTok(reS, rng.Range(-1, 3), gs, []string{",", "", "--"}[rng.Intn(3)], rng.Bool(), src)
+				toks = append(toks, tok)
+			}
+		}
+		fmt.Fprintf(w, "c13.subst %d %s %s\n", nf, strings.Join(toks, " "), hx.Enc(src))
+	}
+
+	// ---- convert_utf8_bytes: every string over the scanner's alphabet, then escape-rich random ones
+	ulen := 5
+	if full {
+		ulen = 6
+	}
+	c13AllStrings([]string{"\\", "u", "x", "0", "d", "8"}, ulen, func(s string) {
+		fmt.Fprintf(w, "c13.utf8 1 %s\n", hx.Enc([]byte(s)))
+	})
+	pieces := []string{"\\", "\\\\", "\\u", "\\U", "\\x", "u", "x", "0041", "d801", "dc01", "D83D", "DE00", "00e9", "zz", "41", "4", "f", "g", "110", "377", "400", "8", "0001F600", "0011FFFF", "FFFFFFFF", "0000d800", "+123", "я", "\xff", " ", "a"}
+	nu := 3000
+	if full {
+		nu = 80000
+	}
+	for i := 0; i < nu; i++ {
+		nfields := 1
+		if rng.Chance(1, 4) {
+			nfields = rng.Range(2, 3)
+		}
+		fmt.Fprintf(w, "c13.utf8 %d", nfields)
+		for f := 0; f < nfields; f++ {
+			var sb strings.Builder
+			for k := rng.Range(0, 8); k > 0; k-- {
+				sb.WriteString(pieces[rng.Intn(len(pieces))])
+			}
+			fmt.Fprintf(w, " %s", hx.Enc([]byte(sb.String())))
+		}
+		w.WriteByte('\n')
+	}
+}
